@@ -1152,7 +1152,188 @@ def check_C18(tier: str, seed: int) -> int:
         w.cleanup()
 
 
-CHECKS: Dict[str, Callable[[str, int], int]] = {"C01": check_C01, "C02": check_C02, "C04": check_C04, "C05": check_C05, "C06": check_C06,
+
+# ==========================================================================
+# C03 / C17  blend modes: Aseprite's arithmetic bit for bit; mode-independent laws
+# ==========================================================================
+SEPARABLE = [1, 2, 3, 4, 5, 6, 7, 8, 9, 10, 11, 16, 17, 18]
+HSL = [12, 13, 14, 15]
+LAT16 = [0, 1, 2, 63, 64, 127, 128, 129, 191, 192, 200, 253, 254, 255, 31, 100]
+ALPHA_OPACITY = [  # (backdrop alpha, source alpha, layer opacity, cel opacity)
+    (255, 255, 255, 255), (255, 128, 255, 255), (128, 255, 255, 255), (1, 255, 200, 255), (255, 1, 255, 37),
+    (77, 200, 128, 128), (0, 255, 255, 255), (255, 0, 255, 255), (255, 255, 0, 255), (200, 100, 255, 0),
+    (254, 254, 254, 254), (2, 2, 1, 255), (128, 127, 129, 2), (0, 0, 255, 255), (0, 128, 77, 200), (255, 255, 1, 1)]
+
+
+def blend_image(mode: int, k: int, variant: str, rng: random.Random, size: int = 256):
+    """two-layer sprite whose pixels enumerate an input domain; returns (bytes, B list, S list, lo, co)"""
+    ba, sa, lo, co = ALPHA_OPACITY[k % len(ALPHA_OPACITY)]
+    B, S = [], []
+    for y in range(size):
+        for x in range(size):
+            if variant == "square":          # complete (backdrop channel, source channel) square on r; g swapped; b mixed
+                b = (x, y, (x + y) & 255, ba)
+                sp = (y, x, (x * 7 + y * 13) & 255, sa)
+            elif variant == "lattice":       # orderings and ties of (r, g, b): 16-value lattice on two channels, third rotating
+                b = (LAT16[x & 15], LAT16[x >> 4], LAT16[(x + y + k) & 15], ba)
+                sp = (LAT16[y & 15], LAT16[(y >> 4)], LAT16[(x * 3 + y + 2 * k) & 15], sa)
+            elif variant == "alpha":         # complete (backdrop alpha, source alpha) square with lattice colours
+                b = (LAT16[(x + k) & 15], LAT16[(y + k) & 15], LAT16[(x + y) & 15], x)
+                sp = (LAT16[(y + 3) & 15], LAT16[(x + 5) & 15], LAT16[(x ^ y) & 15], y)
+            else:                            # random full pixels
+                b = (rng.randrange(256), rng.randrange(256), rng.randrange(256), rng.choice([0, 1, 128, 254, 255, 255, rng.randrange(256)]))
+                sp = (rng.randrange(256), rng.randrange(256), rng.randrange(256), rng.choice([0, 1, 128, 254, 255, 255, rng.randrange(256)]))
+            B.append(b)
+            S.append(sp)
+    if variant == "random" or variant == "alpha":
+        lo, co = rng.choice([(255, 255), (lo, co), (rng.randrange(256), rng.randrange(256))])
+    fr = ase.Frame(chunks=[
+        ase.LayerChunk(flags=1, blend=0, opacity=255, name="b"), ase.LayerChunk(flags=1, blend=mode, opacity=lo, name="s"),
+        ase.CelChunk(layer=0, w=size, h=size, pixels=ase.rgba_bytes(B), ctype_cel=2, zlevel=1),
+        ase.CelChunk(layer=1, w=size, h=size, opacity=co, pixels=ase.rgba_bytes(S), ctype_cel=2, zlevel=1)])
+    return ase.serialize(ase.Sprite(width=size, height=size, frames=[fr])), B, S, lo, co
+
+
+def normal_alpha(ba, sa, o):
+    if ba == 0:
+        return mul_un8(sa, o)
+    if sa == 0:
+        return ba
+    sa2 = mul_un8(sa, o)
+    return sa2 + ba - mul_un8(ba, sa2)
+
+
+def blend_check(prop: str, tier: str, seed: int) -> int:
+    v = Verdict(prop, tier, seed, "proof")
+    ob = vplib.check_obligations(prop)
+    vplib.build_harness(["relchk", "dev"])
+    w = Work(prop)
+    try:
+        rng = random.Random(seed)
+        plan = []     # (mode, k, variant)
+        quick = tier == "quick"
+        for m in range(19):
+            sep = m in SEPARABLE or m == 0
+            variants = (["square", "square", "alpha", "lattice"] if sep else ["lattice"] * 4 + ["alpha", "square"]) + ["random"]
+            if not quick:
+                variants = variants * 4 + ["square"] * 8
+            for j, var in enumerate(variants):
+                k = (0 if (j == 0) else rng.randrange(len(ALPHA_OPACITY))) if var in ("square", "lattice") else j
+                plan.append((m, k + (j // 7) * 3, var))
+        size = 128 if quick else 256
+        cases = []
+        for (m, k, var) in plan:
+            data, B, S, lo, co = blend_image(m, k, var, rng, size)
+            cases.append((m, k, var, w.put(data), B, S, lo, co))
+        paths = [c[3] for c in cases]
+        res = {prof: vplib.impl_observe(prof, paths, w.dir, 2, timeout=2400, mem_kb=6000000) for prof in ("relchk", "dev")}
+        mb = vplib.model_observe(paths, w.dir, 2, timeout=3000)
+        # the reference (AseRef.blend_n extracted from Coq) on every pixel
+        ref_lines = []
+        for (m, k, var, p, B, S, lo, co) in cases:
+            o = mul_un8(lo, co)
+            lf = p + ".ref"
+            with open(lf, "w") as f:
+                for b, sp in zip(B, S):
+                    f.write("%d %d %d %d\n" % (m, b[0] | b[1] << 8 | b[2] << 16 | b[3] << 24, sp[0] | sp[1] << 8 | sp[2] << 16 | sp[3] << 24, o))
+            ref_lines.append(lf)
+
+        def run_ref(lf):
+            r = subprocess.run("ulimit -s unlimited; exec %s blendref %s" % (vplib.MODEL_DRIVER, lf), shell=True, executable="/bin/bash",
+                               stdout=subprocess.PIPE, env=vplib.ENV, timeout=1800)
+            return [tuple(map(int, l.split()[1:])) for l in r.stdout.decode().split("\n") if l.startswith("71 ")]
+        from concurrent.futures import ThreadPoolExecutor
+        with ThreadPoolExecutor(max_workers=vplib.NCPU) as ex:
+            refs = list(ex.map(run_ref, ref_lines))
+        corr_fail, direct_fail = [], []
+        npix = 0
+        guard_false = 0
+        undefined_ref = 0
+        distinct = set()
+        per_mode = Counter()
+        for i, (m, k, var, p, B, S, lo, co) in enumerate(cases):
+            o = mul_un8(lo, co)
+            ims = {}
+            for prof in ("relchk", "dev"):
+                b = res[prof][i]
+                if outcome(b) != 0 or vplib.section_panic(b) is not None:
+                    direct_fail.append({"what": "rendering failed (overflow check / debug assertion / panic) in build %s" % prof, "mode": m, "variant": var,
+                                        "opacity": [lo, co], "comments": b[1][:3] if b else None, "_data": open(p, "rb").read()})
+                    continue
+                ims[prof] = images_of(b, 22).get((0,))
+            if len(ims) < 2:
+                continue
+            if ims["relchk"] != ims["dev"]:
+                direct_fail.append({"what": "dev and relchk builds render different pixels", "mode": m, "variant": var, "_data": open(p, "rb").read()})
+            d = same_block(res["relchk"][i], mb[i], [22])
+            if d:
+                corr_fail.append({"input": p, "mode": m, "variant": var, "diff": d, "_data": open(p, "rb").read()})
+            im = ims["relchk"][2:]
+            ref = refs[i]
+            if len(ref) != len(im):
+                corr_fail.append({"input": p, "diff": "reference evaluation incomplete (%d of %d)" % (len(ref), len(im))})
+                continue
+            per_mode[m] += len(im)
+            for j, got in enumerate(im):
+                b, sp = B[j], S[j]
+                npix += 1
+                if prop == "C03":
+                    want, guard, _ok = ref[j]
+                    if m in HSL and not guard:
+                        guard_false += 1
+                    if want < 0:
+                        undefined_ref += 1
+                        continue
+                    wa = want >> 24
+                    wantc = 0 if wa == 0 else want
+                    if got != wantc:
+                        direct_fail.append({"what": "pixel differs from Aseprite's blend function (Spec/AseRef.v)", "mode": m, "backdrop": b, "source": sp,
+                                            "layer_opacity": lo, "cel_opacity": co, "got": unpackpix(got), "reference": unpackpix(want), "_data": open(p, "rb").read()})
+                        break
+                else:
+                    ga = got >> 24
+                    na = normal_alpha(b[3], sp[3], o)
+                    msg = None
+                    if ga != na:
+                        msg = "result alpha %d differs from the Normal-mode alpha %d" % (ga, na)
+                    elif b[3] != 0 and (sp[3] == 0 or o == 0) and got != packpix(*b):
+                        msg = "transparent source / zero opacity changed a visible backdrop pixel"
+                    elif b[3] == 0 and got != packpix(sp[0], sp[1], sp[2], mul_un8(sp[3], o)):
+                        msg = "over a transparent backdrop the result is not the source with alpha scaled by the opacity"
+                    elif m == 0 and o == 255 and sp[3] == 255 and got != packpix(*sp):
+                        msg = "Normal mode at full opacity with an opaque source does not return the source"
+                    if msg:
+                        direct_fail.append({"what": msg, "mode": m, "backdrop": b, "source": sp, "layer_opacity": lo, "cel_opacity": co,
+                                            "got": unpackpix(got), "_data": open(p, "rb").read()})
+                        break
+            distinct.add((m, k, var))
+        proof_level_coverage(v, ob, {
+            "evaluations": npix, "distinct_nontrivial": len(distinct),
+            "rule": "two-layer %dx%d sprites rendered through Frame::image (lower layer Normal at 255 holding the backdrop pixels): per mode the complete "
+                    "(backdrop channel, source channel) square at %d alpha/opacity corners, the complete (backdrop alpha, source alpha) square, a 16-value "
+                    "lattice enumerating orderings and ties of (r,g,b), and random pixels; relchk and dev builds (overflow checks and debug assertions on); "
+                    "evaluations = pixels compared; distinct = (mode, corner, variant) images" % (size, size, len(ALPHA_OPACITY)),
+            "samples": [{"mode": c[0], "corner": ALPHA_OPACITY[c[1] % len(ALPHA_OPACITY)], "variant": c[2]} for c in cases[:3] + cases[-2:]],
+            "pixels_per_mode": dict(per_mode), "images": len(cases),
+            "hsl_guard_false": guard_false, "reference_undefined": undefined_ref,
+            "correspondence_disagreements": len(corr_fail), "direct_failures": len(direct_fail)})
+        v.assumptions = ["Spec/AseRef.v is the meaning given to 'Aseprite's own blend functions' (transcribed from ref/dummy.cc, the macros quoted in src/blend.rs "
+                         "and DESIGN.md Appendix E)", "bit-exactness of the four HSL modes is proved only under the computable hsl_guard (evaluated on every HSL pixel "
+                         "of this run and counted in hsl_guard_false)"]
+        return finish_with(v, ob, corr_fail, direct_fail)
+    finally:
+        w.cleanup()
+
+
+def check_C03(tier, seed):
+    return blend_check("C03", tier, seed)
+
+
+def check_C17(tier, seed):
+    return blend_check("C17", tier, seed)
+
+
+CHECKS: Dict[str, Callable[[str, int], int]] = {"C01": check_C01, "C02": check_C02, "C03": check_C03, "C17": check_C17, "C04": check_C04, "C05": check_C05, "C06": check_C06,
                                                 "C08": check_C08, "C09": check_C09, "C13": check_C13, "C18": check_C18, "C14": check_C14, "C19": check_C19}
 
 
